@@ -373,6 +373,11 @@ def unit_file_open(sess, ctx):
 
         def lib_open(e, a, k):
             opened.append((a, k))
+            # the stream model (read(k) returns min(k, remaining) bytes) holds for Python's default BUFFERED binary
+            # streams only: an unbuffered raw stream may return fewer bytes
+            bf = k.get("buffering", a[2] if len(a) > 2 else -1)
+            e.prove("C11:lib:file-opened-with-default-buffering(stream-model-precondition)",
+                    isinstance(bf, int) and bf != 0, props=("C11", "C09", "C18", "C05"))
             return eng.st.new_obj("FileStream:new", {})
         eng.lib["builtin.open"] = lib_open
         eng.lib["wave.open"] = lib_open
